@@ -61,10 +61,12 @@ class PacketParser:
         unparsed_fields: List[Tuple[str, Buffer]] = []
         remaining_fields: List[Tuple[str, Buffer]] = list(decompressed_fields)
         for parser in self.parsers:
-            # each field goes to the first header parser whose name its id contains, and to that one only
-            parser_fields = [f for f in remaining_fields if parser.name in f[0]]
-            remaining_fields = [f for f in remaining_fields if parser.name not in f[0]]
-            unparsed_fields.extend(parser.unparse(parser_fields))
+            # the fields are in packet order: each header parser takes the leading run of fields that carry its name
+            count: int = 0
+            while count < len(remaining_fields) and parser.name in remaining_fields[count][0]:
+                count += 1
+            unparsed_fields.extend(parser.unparse(remaining_fields[:count]))
+            remaining_fields = remaining_fields[count:]
         # fields of no header parser of this stack (the payload, headers reached by prediction) follow unchanged
         unparsed_fields.extend(remaining_fields)
         return unparsed_fields
